@@ -3,7 +3,7 @@
 from __future__ import annotations
 
 from ..report import Cx, Ob, describe, obligation
-from ..rules import CONV, component, flag_values, self_call, where
+from ..rules import CONV, component, flag_values, other_kind_call, self_call, where
 from ..summ import describe_path
 from ..terms import is_const, op, show, subterms
 from .c01 import curie_join_check, format_curie_check, is_uri_check
@@ -44,7 +44,7 @@ def d1(cx: Cx, ob: Ob) -> None:
         x = t[2] if op(t) == "cmp" and t[1] in ("is not", "!=") and is_const(t[3], None) else None
         if x is None:
             if self_call(t, me) and t[1][2] not in ("expand", "parse_curie"):
-                ob.violate(fn.qualname, where(fn, line), f"is_curie is defined through `{show(t)[:60]}`, not through expand/parse_curie of its argument", detail="callee")
+                ob.funnel(fn.qualname, where(fn, line), f"is_curie is defined through `{show(t)[:60]}`, not through expand/parse_curie of its argument", any(self_call(y, me) and y[1][2] in ("expand", "parse_curie", "expand_strict") for r_, _ in s.returns() for y in subterms(r_)), "expand / parse_curie", wrong=other_kind_call(t, me, "curie"))
                 main = True
             elif is_const(t, False) and any(g.kind == "guard" and g.b is True and _uri_test(g.a, me, arg) == 1 for g in ctx.guards):
                 ob.violate(
@@ -91,7 +91,7 @@ def d1(cx: Cx, ob: Ob) -> None:
                 if not any(ev.kind == "except" for p in s.paths for ev in p.events):
                     ob.violate(fn.qualname, where(fn, line), "is_curie calls the strict variant without handling its error", detail="strict")
         else:
-            ob.violate(fn.qualname, where(fn, line), f"is_curie is defined through `{show(x)[:60]}`, not through expand/parse_curie of its argument", detail="callee")
+            ob.funnel(fn.qualname, where(fn, line), f"is_curie is defined through `{show(x)[:60]}`, not through expand/parse_curie of its argument", any(self_call(y, me) and y[1][2] in ("expand", "parse_curie", "expand_strict") for r_, _ in s.returns() for y in subterms(r_)), "expand / parse_curie", wrong=other_kind_call(t, me, "curie"))
     if not main:
         ob.undecide("is_curie has no main return")
 
@@ -201,7 +201,7 @@ def d3(cx: Cx, ob: Ob) -> None:
         line = ctx.path.out[2]
         ob.site(f"{where(fn, line)} {fn.qualname}", f"return {show(t)[:60]}")
         if not self_call(t, me, "expand_reference"):
-            ob.violate(fn.qualname, where(fn, line), f"expand_or_standardize returns `{show(t)[:70]}`, not expand_reference(parse(...))", detail="callee")
+            ob.funnel(fn.qualname, where(fn, line), f"expand_or_standardize returns `{show(t)[:70]}`, not expand_reference(parse(...))", any(self_call(x, me, "expand_reference") for x, _ in s.returns()), "expand_reference")
             continue
         R = t[2][0] if t[2] else None
         if not _is_parse_of(fn.params[1].name)(R, me):
@@ -221,7 +221,7 @@ def d4(cx: Cx, ob: Ob) -> None:
         for t, ctx in s.returns():
             ob.site(fn, f"return {show(t)[:60]}")
             if not (self_call(t, me, target) and t[2][:1] == (arg,)):
-                ob.violate(fn.qualname, fn.where, f"{name} returns `{show(t)[:60]}`, not self.{target}(<argument>, strict=True)", detail="callee")
+                ob.funnel(fn.qualname, fn.where, f"{name} returns `{show(t)[:60]}`, not self.{target}(<argument>, strict=True)", any(self_call(x, me, target) for x, _ in s.returns()), f"self.{target}")
                 continue
             kw = dict(t[3])
             if not is_const(kw.get("strict"), True):
